@@ -120,6 +120,11 @@ def fresh_reference_cases(rng, thorough):
         n = len(lo)
         v = {'n': n, 'lo': lo, 'hi': hi, 'r': 2.5, 'eps': 0.02, 'iters': 50, 'density': None, 'refine': True, 'objective': {'kind': 'quad', 'c': [a + 0.3 * (b - a) for a, b in zip(lo, hi)]}}
         out.append({'disturbers': [dict(v, on_victims_problem=True, r=3.5)], 'victim': v})
+    # a solver that refines at the end of its Solve, while another solver on ANOTHER problem is created (and run) in between
+    for _ in range(2 if thorough else 1):
+        v = {'n': 2, 'lo': [-1.0, 0.5], 'hi': [1.5, 2.0], 'r': 3.0, 'eps': 0.02, 'iters': 60, 'density': None, 'refine': True, 'objective': {'kind': 'quad', 'c': [0.2, 1.1]}}
+        d = {'n': 1, 'lo': [0.0], 'hi': [1.0], 'r': 2.5, 'eps': 0.05, 'iters': 15, 'density': None, 'objective': {'kind': 'sin', 'w': [7.0], 'a': [1.0]}, 'script': [['iter', 2]]}
+        out.append({'disturbers': [d], 'victim': v})
     # a neighbour whose local refinement fails (its caller handles the error), then a solver whose objective relies on numpy's default
     # floating-point error handling (warn, do not raise)
     fail = {'n': 1, 'lo': [-1.0], 'hi': [1.0], 'r': 2.5, 'eps': 0.01, 'iters': 200, 'density': None, 'refine': True, 'objective': {'kind': 'quad', 'c': [0.3]},
